@@ -72,6 +72,7 @@ pub struct K {
     pub log: Seq<Attempt>,              // every transmission attempt, in program order
     pub own_rx: Set<c_int>,             // receive-end descriptors THIS process still holds open
     pub consumed: Set<c_int>,           // descriptors taken out of their owning OsIpcReceiver (consume_fd): its Drop closes nothing
+    pub errno: c_int,                   // the thread's errno: set by a FAILING system call, left alone (stale) by a successful one
 }
 
 pub open spec fn spec_frag(s: nat) -> nat { (s - 32) as nat }
